@@ -31,11 +31,11 @@ def could_empty(n):
 
 
 def list_with_lower_priority_element(n, outer=0):
-    """D18 trigger: a list holding an element of lower priority than the list itself"""
+    """D18 trigger: a replacing container (a list, or a mapping tagged !del) holding an element of lower priority than the container itself"""
     p = oracles.tag_priority(n[1])
     here = p if p is not None else outer
-    if n[0] == 'seq':
-        for c in n[2]:
+    if n[0] == 'seq' or (n[0] == 'map' and tagk(n) == '!del'):
+        for c in (n[2] if n[0] == 'seq' else [c for _, c in n[2]]):
             pc = oracles.tag_priority(c[1])
             if pc is not None and pc < here:
                 return True
@@ -44,8 +44,9 @@ def list_with_lower_priority_element(n, outer=0):
 
 
 def plain_outcome(docs):
+    """outcome class and merged data; mappings compared as Python compares dicts (key order is not part of the value)"""
     k, r = oracles.build_plain([gen.render(d) for d in docs])
-    return (k, base.typed(r)) if k == 'ok' else (k, None)
+    return (k, unordered(r)) if k == 'ok' else (k, None)
 
 
 def unordered(x):
@@ -127,6 +128,13 @@ def judge_flag(case):
     return None
 
 
+def known_sig(k, failing):
+    """D18 seen through idempotence: the repeated document has a replacing container holding an element of lower priority than the container"""
+    if k['id'] == 'D18' and 'repeating the last document' in failing['failure'].get('reason', ''):
+        return list_with_lower_priority_element(failing['input'][-1])
+    return False
+
+
 def run(rep, tier, rng):
     rep.rule = ('merge histories of 1-4 documents over priority / !del / !merge tags; each is (1) built twice, (2) built with its last document repeated, (3) with an empty mapping inserted '
                 'at every position, (4) with the keys of every mapping permuted, (5) with random untagged nodes marked !unsafe / !new. non-trivial = history of >= 2 documents with >= 1 tag; '
@@ -145,13 +153,14 @@ def run(rep, tier, rng):
     hist += [[('map', '!del', [('b', ('sc', None, '2'))])],
              [('map', None, []), ('map', '!del', [('b', ('sc', None, '2'))])],
              [('map', None, [('a', ('sc', None, '1'))]), ('map', '!del', [('b', ('sc', None, '2'))])]]
+    hist.append([('map', None, [('c', ('seq', None, [('sc', None, '1')]))]), ('map', None, [('c', ('seq', None, [('sc', '!weak', '5')]))])])     # D18
     show = lambda docs: [gen.render(d) for d in docs]
     for docs in hist:
         tags = sum(len(gen.tag_hist(d)) for d in docs)
         rep.case('\n'.join(show(docs)), len(docs) >= 2 and tags >= 1, sample=show(docs))
     base.run_oracle(rep, 'C15', 'deterministic (build twice, full trees incl. flags)', hist, judge_deterministic, show=show)
     base.run_oracle(rep, 'C15', 'repeat the last document', hist, judge_repeat_last,
-                    in_domain=lambda docs: not could_empty(docs[-1]) and not list_with_lower_priority_element(docs[-1]), show=show)
+                    in_domain=lambda docs: not could_empty(docs[-1]), known_sig=known_sig, show=show)
     emp = [dict(docs=docs, pos=p) for docs in hist for p in range(len(docs) + 1)]
     base.run_oracle(rep, 'C15', 'empty mapping document at every position', emp, judge_empty,
                     show=lambda c: dict(docs=show(c['docs']), pos=c['pos']))
